@@ -206,8 +206,8 @@ def work_loading(arg):
         expp = core.call(perm.pressure_at, elq)
         ikw = dict(lkw)
         if rrep_l[0] in ('fraction', 'percent'):
-            # the signature demands a loading unit even for a unit-less basis: not callable -> not in the alphabet
-            continue
+            # the signature demands a loading unit even for a unit-less basis; its value is irrelevant
+            ikw['loading_unit'] = 'mmol'
         if expp.ok:
             cmp('pressure_at(in)', core.call(iso.pressure_at, elq, **ikw), expp.value, 'pressure_at(loading given in requested units)',
                 f"iso.pressure_at({list(map(float, elq))!r}, **{{k: v for k, v in kw.items() if k[0] in 'lm'}})",
@@ -359,10 +359,10 @@ def _work_model(arg):
             n_out = ru.full_loading(n_nat, srep[2], srep[3], srep[4], srep[5], rrep[2], rrep[3], rrep[4], rrep[5], c, MAT)
             cmp('model.loading_at', core.call(iso.loading_at, p_in, **kw), n_out, 'loading_at(foreign p) in requested units')
             cmp('model.loading_at(scalar)', core.call(iso.loading_at, float(p_in[1]), **kw), n_out[1], 'loading_at(scalar)')
-            if rrep[2] not in ('fraction', 'percent'):
-                n_in = ru.full_loading(nq, srep[2], srep[3], srep[4], srep[5], rrep[2], rrep[3], rrep[4], rrep[5], c, MAT)
-                p_out = ru.c_pressure(model.pressure(nq), srep[0], srep[1], rrep[0], rrep[1], c)
-                cmp('model.pressure_at', core.call(iso.pressure_at, n_in, **kw), p_out, 'pressure_at(foreign n) in requested units')
+            n_in = ru.full_loading(nq, srep[2], srep[3], srep[4], srep[5], rrep[2], rrep[3], rrep[4], rrep[5], c, MAT)
+            p_out = ru.c_pressure(model.pressure(nq), srep[0], srep[1], rrep[0], rrep[1], c)
+            kwi = dict(kw, loading_unit='mmol') if rrep[2] in ('fraction', 'percent') else kw
+            cmp('model.pressure_at', core.call(iso.pressure_at, n_in, **kwi), p_out, 'pressure_at(foreign n) in requested units')
             # whole curves
             pts = numpy.linspace(model.pressure_range[0], model.pressure_range[1], 7)
             cmp('model.pressure()', core.call(iso.pressure, 7, **pkw), ru.c_pressure(pts, srep[0], srep[1], rrep[0], rrep[1], c), 'pressure(points=7)')
@@ -583,7 +583,7 @@ def run(ctx):
                        'compared with a copy permanently converted to R; model isotherms (Langmuir, Virial) against bare model o reference '
                        'conversion; branch rule over all 363 pressure sequences x 16 construction routes. Non-trivial = S != R.')
     ctx.assumptions += ['the permanent conversion used as oracle is itself checked against the SI reference by C02 (pairs where it deviates are skipped and counted)',
-                        'pressure_at cannot take a fraction/percent loading (its signature demands a unit): not callable, not in the alphabet',
+                        'pressure_at takes a fraction/percent loading only together with a (meaningless) loading_unit: the harness passes one',
                         'one data set with strictly monotonic branches; N2 at 77.355 K']
     ctx.sample({'stored': list(BASE), 'requested': ['absolute', 'bar', 'fraction', None, 'volume', 'cm3'],
                 'accessor': "loading_at([0.1, 0.15, ...], loading_basis='fraction', material_basis='volume', material_unit='cm3')"})
